@@ -311,8 +311,104 @@ def rule_one_shot(ctx: Ctx) -> None:
     ctx.floor("7-one-shot", n, 2)
 
 
+def rule_optional_results(ctx: Ctx) -> None:
+    """Stated beliefs are checked against the callee.  Where a caller writes `v = f(...)` and then `assert v is not None`, it
+    relies on f answering None only under conditions the caller has already excluded (`if fixed_indices is None: return ...`
+    before the call).  In f, every `return None` must be unreachable under those conditions; a new early `return None` (say,
+    "nothing is restricted, no mask needed") is fine for a caller that tests for None and breaks the one that asserts."""
+    from ..flow import bind_args, guard_facts, reachable_under
+
+    P = ctx.prog
+    n = 0
+    for fn in P.functions.values():
+        if not fn.module.name.startswith("pipefunc.map"):
+            continue
+        asserts = [a for a in walk_no_nested(fn.node) if isinstance(a, ast.Assert) and isinstance(a.test, ast.Compare) and isinstance(a.test.left, ast.Name) and len(a.test.ops) == 1
+                   and isinstance(a.test.ops[0], ast.IsNot) and isinstance(a.test.comparators[0], ast.Constant) and a.test.comparators[0].value is None]
+        if not asserts:
+            continue
+        d = Defs(fn)
+        cfg = ctx.cfg(fn)
+        for a in asserts:
+            v = d.unique(a.test.left.id)
+            if not isinstance(v, ast.Call):
+                continue
+            callees = [c for c in ctx.cg.resolve_callable(fn, v.func) if c.module.name.startswith("pipefunc.map") and c.name not in ("__init__", "__post_init__")]
+            if len(callees) != 1:
+                continue
+            g = callees[0]
+            gcfg = ctx.cfg(g)
+            nones = gcfg.nodes(lambda s_: isinstance(s_, ast.Return) and (s_.value is None or (isinstance(s_.value, ast.Constant) and s_.value.value is None)))
+            if not nones:
+                continue
+            n += 1
+            binding = {arg.id: prm for prm, arg in bind_args(v, g).items() if isinstance(arg, ast.Name)}
+            env: dict[str, bool] = {}
+            for text, pol in guard_facts(cfg, d, cfg.node(a)):
+                names = {x.id for x in ast.walk(ast.parse(text, mode="eval")) if isinstance(x, ast.Name)} if _parses(text) else set()
+                if names and names <= set(binding):
+                    t2 = ast.parse(text, mode="eval").body
+                    for x in ast.walk(t2):
+                        if isinstance(x, ast.Name):
+                            x.id = binding[x.id]
+                    env[norm(t2)] = pol
+            verdicts = [reachable_under(gcfg, Defs(g), nd, env) for nd in nones]
+            bad = [nd for nd, r in zip(nones, verdicts) if r is True]
+            ctx.tri("2-one-mask", g, gcfg.stmt[bad[0]] if bad else g.node, all(r is False for r in verdicts), bool(bad) and bool(env),
+                    f"{g.name} returns None only where {fn.name} has excluded it ({env})",
+                    f"{g.name} can return None although {env} holds (`{norm(gcfg.stmt[bad[0]])[:40] if bad else ''}` at line {getattr(gcfg.stmt[bad[0]], 'lineno', '?') if bad else '?'}): {fn.name} asserts the result is not None under exactly that condition - "
+                    "create_learners fails (or, with assertions disabled, silently computes nothing) for a valid selection that leaves a function unrestricted",
+                    f"whether {g.name} can return None where {fn.name} asserts it does not ({env or 'no excluding condition found'})", key=f"belief {fn.name} {g.name}")
+    ctx.floor("2-one-mask.beliefs", n, 1)
+
+
+def rule_no_pipeline_memo(ctx: Ctx) -> None:
+    """What is derived from a pipeline (reduced axes, shapes, generations) is remembered only in cached properties, which
+    _clear_internal_cache drops whenever the pipeline or one of its functions changes.  A process-wide memo (module-level
+    container, lru_cache) keyed by something computed from the pipeline is outside that protocol: it keeps answering for a
+    pipeline that has since gained a reducing function - the validation of fixed_indices then depends on what was validated
+    earlier in the process."""
+    P = ctx.prog
+    mutators = ("append", "extend", "insert", "update", "setdefault", "add", "__setitem__")
+    n, bad = 0, []
+    for mn, mod in P.modules.items():
+        if not mn.startswith(("pipefunc.map", "pipefunc._pipeline")):
+            continue
+        glob = {nm for nm, v in mod.assigns.items() if isinstance(v, (ast.Dict, ast.List, ast.Set))
+                or (isinstance(v, ast.Call) and dotted(v.func).rsplit(".", 1)[-1] in ("dict", "list", "set", "defaultdict", "OrderedDict", "WeakValueDictionary", "WeakKeyDictionary", "deque"))}
+        for fn in P.functions_in(mn):
+            takes = [p_.arg for p_ in fn.params if p_.annotation is not None and any(w in norm(p_.annotation) for w in ("Pipeline", "PipeFunc"))]
+            if not takes:
+                continue
+            n += 1
+            memo = [d_ for d_ in fn.decorators if d_.rsplit(".", 1)[-1] in ("lru_cache", "cache")]
+            if memo:
+                bad.append((fn, fn.node, f"{fn.name} is memoised with @{memo[0]} on its `{takes[0]}` argument"))
+            local = {a_.arg for a_ in fn.params} | {t.id for a_ in ast.walk(fn.node) if isinstance(a_, ast.Assign) for t in a_.targets if isinstance(t, ast.Name)}
+            for x in ast.walk(fn.node):
+                name = None
+                if isinstance(x, ast.Subscript) and isinstance(x.ctx, ast.Store) and isinstance(x.value, ast.Name):
+                    name = x.value.id
+                if isinstance(x, ast.Call) and isinstance(x.func, ast.Attribute) and x.func.attr in mutators and isinstance(x.func.value, ast.Name):
+                    name = x.func.value.id
+                if name in glob and name not in local:
+                    bad.append((fn, x, f"`{norm(x)[:60]}` stores what {fn.name} derives from `{takes[0]}` in the module-level `{name}`"))
+    ctx.add("3-validated", bad[0][0] if bad else "pipefunc.map", bad[0][1] if bad else "", not bad, f"nothing derived from a pipeline is kept in process-wide state ({n} functions taking a pipeline / function examined)" if not bad else
+            bad[0][2] + ": the entry outlives every later change of the pipeline (cached properties are cleared by _clear_internal_cache, this is not) - a pipeline that gains a reducing function is still validated with the remembered "
+            "answer, so a request that fixes a reduced axis is accepted (or a valid one refused) depending on what ran earlier in the process", key="no-pipeline-memo")
+    ctx.floor("3-validated.pipeline-takers", n, 10)
+
+
+def _parses(text: str) -> bool:
+    try:
+        ast.parse(text, mode="eval")
+    except SyntaxError:
+        return False
+    return True
+
+
 def check(ctx: Ctx) -> None:
-    for rule in (rule_sequence, rule_one_mask, rule_validated, rule_skip, rule_writes, rule_axes, rule_one_shot):
+    for rule in (rule_sequence, rule_one_mask, rule_validated, rule_skip, rule_writes, rule_axes, rule_one_shot, rule_optional_results, rule_no_pipeline_memo):
         ctx.run(rule)
 
 
